@@ -54,6 +54,9 @@ const (
 	// a prune cancelled inside its per-block loop (or before its first iteration) deletes the hash->number
 	// mapping of the block just below the new oldest retained block, the carve-out StateAtBlockHash(parent) needs
 	kfCancelParentMapping = "c16-cancelled-prune-drops-hash-mapping-of-block-below-floor"
+	// the min-age sample (latestSampledHeight) is not lowered when a reorg replaces blocks below it with
+	// younger ones: until the next tick the pruner may delete replacement blocks younger than min-age
+	kfMinAgeStaleAfterReorg = "c16-min-age-sample-stale-after-reorg"
 )
 
 func known(key string) bool { return stats.Known(key) || strings.Contains(os.Getenv("C16_ASSUME_KNOWN"), key) }
@@ -400,6 +403,8 @@ type machine struct {
 	deep     bool   // a revert below the L1 head happened (min-age oracle no longer applicable)
 	probes   int
 	hist     []string
+	// freshTips: every new block is stamped close to the virtual now (see nextBlock)
+	freshTips bool
 	// noParentMapping: the copy under inspection is the result of a cancelled (partial) prune and the known
 	// finding kfCancelParentMapping is listed: the hash->number mapping of floor-1 is not required
 	noParentMapping bool
@@ -578,10 +583,33 @@ func (m *machine) dropBlock(b *gen.Block) {
 }
 
 func (m *machine) nextBlock() *gen.Block {
+	var b *gen.Block
 	if m.ch.Height() > 0 && rapid.IntRange(0, 3).Draw(m.rt, "emptyBlock") == 0 {
-		return m.ch.AppendEmpty(m.ch.Blocks[m.ch.Height()-1].B.ProtocolVersion)
+		b = m.ch.AppendEmpty(m.ch.Blocks[m.ch.Height()-1].B.ProtocolVersion)
+	} else {
+		b = m.ch.Next(m.rt)
 	}
-	return m.ch.Next(m.rt)
+	// Timestamps: the generator advances them by <= 10 min per block from a fixed epoch. Now and then (always
+	// while freshTips is set) the chain "reaches the tip": the block is stamped a few minutes before the
+	// virtual now, leaving a gap to its parent (any non-decreasing sequence is a valid chain). Later blocks
+	// are kept non-decreasing. The block hash is recomputed (the timestamp is part of it).
+	now := uint64(time.Now().Unix())
+	ts, prev := b.B.Timestamp, uint64(0)
+	if b.Num() > 0 {
+		prev = m.ch.Blocks[b.Num()-1].B.Timestamp
+	}
+	if now > ts+600 && (m.freshTips || rapid.IntRange(0, 7).Draw(m.rt, "tsGap") == 0) {
+		ts = now - uint64(rapid.IntRange(0, 300).Draw(m.rt, "freshAge"))
+		m.c.Label("timestamp-gap-to-tip")
+	}
+	if b.Num() > 0 && ts < prev {
+		ts = prev
+	}
+	if ts != b.B.Timestamp {
+		b.B.Timestamp = ts
+		gen.Rehash(b, m.u.Net)
+	}
+	return b
 }
 
 // store draws the next block, advances the clock to its arrival time, stores it on both nodes and delivers
@@ -744,6 +772,16 @@ func (m *machine) reorg() bool {
 	}
 	m.c.Label("reorg")
 	m.used("revert")
+	if m.cf.minAge > 0 && known(kfMinAgeStaleAfterReorg) {
+		// known finding: exclude "prune between a reorg and the next min-age tick" by letting one tick pass
+		tick := m.cf.tick
+		if tick == 0 {
+			tick = 15 * time.Minute
+		}
+		m.logf("  (one min-age tick passes: %s)", tick+time.Second)
+		m.sleep(tick + time.Second)
+		m.c.Excluded(kfMinAgeStaleAfterReorg)
+	}
 	return true
 }
 
@@ -1375,12 +1413,13 @@ func drawCfg(rt *rapid.T) cfg {
 	return cf
 }
 
-func runCase(t *testing.T, rt *rapid.T, c *stats.Case) {
-	cf := drawCfg(rt)
+// newMachine labels the configuration, sets the virtual clock (chain epoch + offset) and starts the twin and the
+// pruned node on empty databases. The caller must defer m.stopAll().
+func newMachine(t *testing.T, rt *rapid.T, c *stats.Case, cf cfg, offset time.Duration) *machine {
 	u := gen.NewUniverse(rt)
 	m := &machine{t: t, rt: rt, c: c, cf: cf, u: u,
-		ch:        gen.NewChain(u, gen.Opts{MaxTxs: 2, MaxEvents: 2, DenseEvents: true, MinVersionIdx: rapid.IntRange(0, 3).Draw(rt, "minver")}),
-		ids:       &node.Ids{NoState: true},
+		ch:         gen.NewChain(u, gen.Opts{MaxTxs: 2, MaxEvents: 2, DenseEvents: true, MinVersionIdx: rapid.IntRange(0, 3).Draw(rt, "minver")}),
+		ids:        &node.Ids{NoState: true},
 		writtenSet: map[pair]bool{}, numOfHash: map[felt.Felt]uint64{}, numOfTx: map[felt.Felt]uint64{}, numOfMsg: map[string]uint64{},
 	}
 	c.Fp("%s", cf)
@@ -1389,21 +1428,46 @@ func runCase(t *testing.T, rt *rapid.T, c *stats.Case) {
 	c.Labelf("l2HeadsPerPrune-%d", cf.l2Per)
 	c.Labelf("batch-%d", cf.batch)
 	c.Labelf("minAge-%s", cf.minAge)
-
-	// virtual clock: the chain's first timestamp plus an offset (0 = the node follows the tip: blocks arrive
-	// fresh; hours = the first blocks arrive old and the node catches up with the clock; years = deep catch-up)
-	offset := rapid.SampledFrom([]time.Duration{0, 0, 45 * time.Minute, 3 * time.Hour, 20 * time.Hour, 3 * 365 * 24 * time.Hour}).Draw(rt, "clockOffset")
 	time.Sleep(time.Unix(chainEpoch, 0).Add(offset).Sub(time.Now()))
 	c.Fp("offset %s", offset)
 	c.Labelf("clock-offset-%s", offset)
 	m.logf("config %s; clock offset %s", cf, offset)
-
 	m.twin = node.New(cf.newState, newFdb(memory.New()), u.Net) // same wrapper (cheap batch reads), no fault hooks
-	defer func() {
-		for _, s := range m.all {
-			s.stop()
+	return m
+}
+
+func (m *machine) stopAll() {
+	for _, s := range m.all {
+		s.stop()
+	}
+}
+
+func (m *machine) finish() {
+	c := m.c
+	if m.pruned > 0 && m.afterUse {
+		c.NonTrivial("prune-deleted-blocks-then-query/revert/restart")
+	}
+	if m.pruned == 0 {
+		c.Label("nothing-pruned")
+	}
+	c.Labelf("chain-%s", map[bool]string{true: ">=30", false: "<30"}[m.ch.Height() >= 30])
+	hist := append([]string{}, m.hist...)
+	cf, pruned, lastF := m.cf, m.pruned, m.lastF
+	c.Sample(func() any {
+		if len(hist) > 60 {
+			hist = append(hist[:30:30], hist[len(hist)-30:]...)
 		}
-	}()
+		return map[string]any{"config": cf.String(), "blocks_pruned": pruned, "final_floor": lastF, "history": hist}
+	})
+}
+
+func runCase(t *testing.T, rt *rapid.T, c *stats.Case) {
+	cf := drawCfg(rt)
+	// virtual clock: the chain's first timestamp plus an offset (0 = the node follows the tip: blocks arrive
+	// fresh; hours = the first blocks arrive old and the node catches up with the clock; years = deep catch-up)
+	offset := rapid.SampledFrom([]time.Duration{0, 0, 45 * time.Minute, 3 * time.Hour, 20 * time.Hour, 3 * 365 * 24 * time.Hour}).Draw(rt, "clockOffset")
+	m := newMachine(t, rt, c, cf, offset)
+	defer m.stopAll()
 	s, err := m.startSession(newFdb(memory.New()), cf)
 	if err != nil {
 		m.violation("restart-failed", "start on an empty database failed: %v", err)
@@ -1459,26 +1523,13 @@ func runCase(t *testing.T, rt *rapid.T, c *stats.Case) {
 	if m.ch.Height() > 0 {
 		m.query()
 	}
-	if m.pruned > 0 && m.afterUse {
-		c.NonTrivial("prune-deleted-blocks-then-query/revert/restart")
-	}
-	if m.pruned == 0 {
-		c.Label("nothing-pruned")
-	}
-	c.Labelf("chain-%s", map[bool]string{true: ">=30", false: "<30"}[m.ch.Height() >= 30])
-	hist := append([]string{}, m.hist...)
-	c.Sample(func() any {
-		if len(hist) > 60 {
-			hist = append(hist[:30:30], hist[len(hist)-30:]...)
-		}
-		return map[string]any{"config": cf.String(), "blocks_pruned": m.pruned, "final_floor": m.lastF, "history": hist}
-	})
+	m.finish()
 }
 
 const rule = "per case (inside a synctest bubble with a virtual clock): config drawn from backend {legacy, trie2} x retained {0,1,2,5,1000} x l2HeadsPerPrune {1,3} x target batch size {1 byte, default} x min-age {0, 1h (tick default|1m)} x clock offset {0, 45m, 3h, 20h, 3y}; 11-22 warm-up blocks then a script of 8-70 steps over store (generated or empty block, arrival time >= its timestamp, new-head event to the real pruner.Run loop) / L1 head (lagging, equal, ahead; event before or after the write) / idle (virtual minutes-hours, min-age ticks fire) / restart (graceful or not: new Blockchain+floor+Pruner on the same DB, wired as node.New does) / reorg above the L1 head / query / fault probe (crash image after, or context cancelled at, the k-th commit of the prune just triggered, on copies: restart, check, resume, compare with the uninterrupted copy); optional final revert down to the floor, attempt below it, re-extension. Oracles vs an unpruned twin: floor <= high-water of min(L1, head)-retained and no block younger than min-age pruned; every Reader answer, state (by number and hash, from floor-1) and event query for blocks >= floor equal the twin (and the abstract state); below the floor refused or exactly the twin's answer. Non-trivial = a prune deleted >= 1 block and a query, revert or restart followed."
 
 func TestPropPruning(t *testing.T) {
-	stats.Check(t, stats.Budget{Quick: 60, Thorough: 900}, rule, func(rt *rapid.T, c *stats.Case) {
+	stats.Check(t, stats.Budget{Quick: 100, Thorough: 1500}, rule, func(rt *rapid.T, c *stats.Case) {
 		t0 := wall()
 		bubble(t, func() { runCase(t, rt, c) })
 		prof("case", t0)
@@ -1486,4 +1537,90 @@ func TestPropPruning(t *testing.T) {
 	if os.Getenv("C16_PROF") != "" {
 		fmt.Println("PROF(ms):", profT)
 	}
+}
+
+// ---------------------------------------------------------------------------------------------------------
+// biased skeleton: min-age floor around a reorg
+//
+// The uniform script rarely lines up "the min-age sample sits at or just below the head" with "a reorg
+// replaces blocks below the sample by younger blocks" and "the pivot passes them before the next tick".
+// This skeleton builds exactly that neighbourhood and leaves the rest to the generator.
+
+const ruleMinAge = "skeleton (synctest bubble, virtual clock, min-age 1h, retained {0,1,2}, l2HeadsPerPrune {1,3}, both backends, batch {1, default}): 12-20 blocks that are 1.5-20 h old on arrival, L1 head 3-6 below the head; the min-age floor is sampled (restart = start-up seed, or an idle period with ticks); reorg of 1-3 blocks above the L1 head; replacement and further blocks are stamped minutes before the virtual now; L1 heads (just below / at / ahead of the head), stores, occasional short idles and queries follow. Same oracles as TestPropPruning (floor bound, no block younger than min-age pruned at the moment of the prune, twin/abstract-state equality from floor-1, refusal or exact answers below). Non-trivial = a prune deleted >= 1 block after the reorg and a query followed."
+
+func runMinAgeReorg(t *testing.T, rt *rapid.T, c *stats.Case) {
+	cf := cfg{
+		newState: rapid.IntRange(0, 2).Draw(rt, "backend") == 2,
+		retained: rapid.SampledFrom([]uint64{0, 1, 2}).Draw(rt, "retained"),
+		l2Per:    rapid.SampledFrom([]uint64{1, 3}).Draw(rt, "l2HeadsPerPrune"),
+		batch:    rapid.SampledFrom([]int{1, 0}).Draw(rt, "batch"),
+		minAge:   time.Hour,
+		tick:     rapid.SampledFrom([]time.Duration{0, 0, time.Minute}).Draw(rt, "tick"),
+	}
+	offset := rapid.SampledFrom([]time.Duration{90 * time.Minute, 3 * time.Hour, 20 * time.Hour}).Draw(rt, "clockOffset")
+	m := newMachine(t, rt, c, cf, offset)
+	defer m.stopAll()
+	s, err := m.startSession(newFdb(memory.New()), cf)
+	if err != nil {
+		m.violation("restart-failed", "start on an empty database failed: %v", err)
+	}
+	m.s = s
+	n0 := rapid.IntRange(12, 20).Draw(rt, "oldBlocks")
+	for m.ch.Height() < n0 {
+		m.store(false)
+	}
+	// L1 head a few blocks below the head, so that the reorg stays above it
+	lag := uint64(rapid.IntRange(3, 6).Draw(rt, "l1lag"))
+	h := &core.L1Head{BlockNumber: m.head() - lag, BlockHash: m.ch.Blocks[m.head()-lag].B.Hash, StateRoot: m.ch.Blocks[m.head()-lag].B.GlobalStateRoot}
+	m.logf("L1 head := %d (local head %d)", h.BlockNumber, m.head())
+	c.Fp("l1 %d", h.BlockNumber)
+	m.noteBound(h.BlockNumber, true)
+	m.twinVer++
+	if err := m.twin.BC.SetL1Head(h); err != nil {
+		stats.HarnessError("twin SetL1Head: %v", err)
+	}
+	if err := m.s.n.BC.SetL1Head(h); err != nil {
+		m.violation("set-l1-head", "SetL1Head: %v", err)
+	}
+	m.l1 = h
+	before, after := m.sendL1(m.s, h, &m.lastF)
+	m.notePruned(before, after, "L1")
+	// sample the min-age floor: start-up seed or ticks
+	if rapid.Bool().Draw(rt, "sampleByRestart") {
+		m.restart()
+	} else {
+		m.idle()
+	}
+	if !m.reorg() {
+		stats.HarnessError("skeleton: reorg impossible (head %d, L1 %d)", m.head(), h.BlockNumber)
+	}
+	prunedBefore := m.pruned
+	m.freshTips = true
+	nsteps := rapid.IntRange(4, 14).Draw(rt, "nsteps")
+	for i := 0; i < nsteps; i++ {
+		switch rapid.SampledFrom([]string{"store", "store", "store", "l1", "l1", "query", "shortIdle"}).Draw(rt, "action") {
+		case "store":
+			m.store(false)
+		case "l1":
+			m.setL1(false)
+		case "query":
+			m.query()
+		case "shortIdle":
+			d := time.Duration(rapid.IntRange(10, 300).Draw(rt, "shortIdle")) * time.Second
+			m.c.Fp("idle %s", d)
+			m.logf("idle %s", d)
+			m.sleep(d)
+		}
+	}
+	m.query()
+	if m.pruned > prunedBefore {
+		c.Label("pruned-after-reorg")
+	}
+	m.finish()
+}
+
+func TestPropMinAgeAroundReorg(t *testing.T) {
+	stats.Check(t, stats.Budget{Quick: 40, Thorough: 600}, ruleMinAge, func(rt *rapid.T, c *stats.Case) {
+		bubble(t, func() { runMinAgeReorg(t, rt, c) })
+	})
 }
